@@ -59,3 +59,13 @@ Definition run_abort (pre : list wop) (f : bytes) (d : dict) (post : list wop) :
          JL (map (jv_outcome jv_wobs) (spec_wtrace_total [] (pre ++ WRun f d :: post))) ]
   | _ => jnone
   end.
+
+(* a history with one fork: [parent model answers; child model answers; parent demanded; child demanded] *)
+Definition run_fork (pre child parent : list pop) : jv :=
+  let ops := map FCall pre ++ FFork child :: map FCall parent in
+  let m := ftrace [] ops in
+  let ok := forallb fop_ok ops in
+  JL [ JL (map (jv_outcome jv_pobs) (fst m));
+       JL (map (jv_outcome jv_pobs) (hd [] (snd m)));
+       (if ok then JL (map (fun o => jv_outcome jv_pobs (Val o)) (fst (spec_ftrace [] ops))) else jnone);
+       (if ok then JL (map (fun o => jv_outcome jv_pobs (Val o)) (hd [] (snd (spec_ftrace [] ops)))) else jnone) ].
